@@ -651,9 +651,13 @@ def bounds_job(ck, derive, body, loaded):
     if body == "struct":
         focus = Focus("bounds-struct", body=("Struct",), style=("Named",), nf=(1, 2), generics=(1, 2), fattrs=(0, 1), items=(1, 1), simple=True, item_names=["skip", "rename"],
                       field_names=names, where_clause=True)
-    else:
+    elif body == "enum":
         focus = Focus("bounds-enum", body=("Enum",), style=("Unnamed",), nf=(1, 1), nv=(1, 2), generics=(1, 2), vattrs=(0, 1), items=(1, 1), simple=True, item_names=["skip", "rename"],
                       field_names=names)
+    else:
+        # skipped fields inside a (non-skipped) struct variant: one variant, 1..2 named fields with 0..1 attribute each
+        focus = Focus("bounds-enum-fields", body=("Enum",), style=("Named",), nf=(1, 2), nv=(1, 1), generics=(1, 2), fattrs=(0, 1), items=(1, 1), simple=True,
+                      item_names=["skip", "rename"], field_names=names)
     I, e, leaves = D.explore(ck, prog, derive, focus)
     gt = prog.find_ty("syn::Generics")
     params_names = "TU"
@@ -743,9 +747,13 @@ def bounds_job(ck, derive, body, loaded):
                 if sk is None:
                     undecided = True
                 elif not sk:
-                    fl = vb + ".fields.Unnamed.0.unnamed"
-                    for j in range(l.decisions.get(fl + "#len", 0)):
-                        used.add(ty_param("%s[%d].ty" % (fl, j)))
+                    for fl in (vb + ".fields.Unnamed.0.unnamed", vb + ".fields.Named.0.named"):
+                        for j in range(l.decisions.get(fl + "#len", 0)):
+                            fsk = skipped("%s[%d].attrs" % (fl, j))
+                            if fsk is None:
+                                undecided = True
+                            elif not fsk:
+                                used.add(ty_param("%s[%d].ty" % (fl, j)))
         if undecided:
             ck.obligations += 1
             ck.engine("bounds %s[%s]: the value of a skip option is not decided on the leaf" % (derive, focus.tag))
@@ -847,7 +855,7 @@ def prepare(ck):
     loaded = derive_common.load()        # dumped once here, not concurrently inside the workers
     ck.programs.add("hmacro (darling_core::derive::from_meta / from_derive_input)")
     for dv in ("from_meta", "from_derive_input"):
-        for body in (("struct", "enum") if dv == "from_meta" else ("struct",)):
+        for body in (("struct", "enum", "enum-fields") if dv == "from_meta" else ("struct",)):
             jobs.append(lambda sub, dv=dv, body=body: bounds_job(sub, dv, body, loaded))
     ck.bounds = {"type_nesting_depth": "1 for every outermost form" + ("" if quick else "; 2 below wrappers and tuples"),
                  "query_set": "0..2 symbolic names (equal or not) at depth 0 and for collections; 1..2 names below",
